@@ -228,7 +228,8 @@ def prepare_type(value: Value) -> Value:
 
 
 def get_shared_type(types: Sequence[type]) -> type:
-    mros = [t.mro() for t in types]
+    # not t.mro(), which is an unbound method if t is a metaclass
+    mros = [t.__mro__ for t in types]
     first, *rest = mros
     rest_sets = [set(mro) for mro in rest]
     for candidate in first:
